@@ -2,6 +2,7 @@ package PVM
 
 import (
 	"fmt"
+	"math"
 	"sync"
 	"time"
 
@@ -89,6 +90,16 @@ type HostCallArgs struct {
 }
 
 func getPtr[T any](v T) *T { return &v }
+
+// accountByRegister looks up the service account named by a 64-bit register. Service identifiers are
+// 32-bit: a register value of 2^32 or more names no service (it must not be truncated to one).
+func accountByRegister(d types.ServiceAccountState, v uint64) (types.ServiceAccount, bool) {
+	if v > math.MaxUint32 {
+		return types.ServiceAccount{}, false
+	}
+	a, ok := d[types.ServiceID(v)]
+	return a, ok
+}
 
 var hostCallName = []string{
 	0:   "gas",
@@ -534,7 +545,7 @@ func lookup(input OmegaInput) (output OmegaOutput) {
 	var a *types.ServiceAccount
 	if input.VM.Registers[7] == 0xffffffffffffffff || input.VM.Registers[7] == uint64(serviceID) {
 		a = &serviceAccount
-	} else if value, exists := delta[types.ServiceID(input.VM.Registers[7])]; exists {
+	} else if value, exists := accountByRegister(delta, input.VM.Registers[7]); exists {
 		a = &value
 	}
 
@@ -626,7 +637,7 @@ func read(input OmegaInput) (output OmegaOutput) {
 	// assign a
 	if sStar == uint64(serviceID) {
 		a = delta[serviceID]
-	} else if value, exists := delta[types.ServiceID(sStar)]; exists {
+	} else if value, exists := accountByRegister(delta, sStar); exists {
 		a = value
 		serviceID = types.ServiceID(sStar)
 	} else {
@@ -807,7 +818,7 @@ func info(input OmegaInput) (output OmegaOutput) {
 	if input.VM.Registers[7] == 0xffffffffffffffff {
 		a = delta[serviceID]
 	} else {
-		value, exist := delta[types.ServiceID(input.VM.Registers[7])]
+		value, exist := accountByRegister(delta, input.VM.Registers[7])
 		if exist {
 			a = value
 		} else {
